@@ -3,19 +3,23 @@ import BoltonsVerif.C16.Model
 /-
 C16 line protocol (strings travel as hex of UTF-8, `-` = empty string).
 
-  T <text>                                  ParsedException.from_string(text) (+ to_string, source_file)
+  T <text>                                  ParsedException.from_string(text) (+ to_string)
   T <text> <type> <msg> <nl> <frame>*       same, plus the structured data the text was generated from:
         frame = file,lineno,func,src,anchor   (src `-` = no source line, anchor `!` = no marker line)
         nl = 1 when the text carries the interpreter's final newline
       -> `... | wf=<WFtextA> gen=<toStringA data (+ "\n") = text> wfc=<WFtextA ∧ no markers ∧ no final newline → WFtext text>`
-  L <limit|n> <syslimit|n> <type> <msg> <entry>*
+  L <limit|n> <syslimit|n> <class> <msg> <priors> <entry>*
+        msg = <str() of the exception> | !       (`!` = str() raised)
+        class = <module|!>:<qualname>            (`!` = `__module__` is not a str)
+        priors = - | <class>:<msg>;...           (the earlier captures of the session, exception part only)
         entry = path,lineno,func,fid,cache,disk,loader   (what the interpreter hands over, see Model `TbEntry`)
           cache = a | z:<line> | p:<line> | s:<size>:<mtime>:<line>      disk = n | y:<size>:<mtime>:<line>
           loader = n | y:<line>
       -> `B=<ExceptionInfo.get_formatted> T=<TracebackInfo.from_traceback(tb, limit).get_formatted>
           S=<traceback.format_exception layout> P=<tbutils.print_exception output>
           Q=<tbutils.print_exception(limit=limit) output> N=<number of entries of extract_tb(tb, limit)>
-          F=<frames of ExceptionInfo.to_dict(): path,lineno,func,line;...>`
+          F=<frames of ExceptionInfo.to_dict(): path,lineno,func,line;...>
+          Y=<per earlier capture: ExceptionInfo.exc_type,get_formatted_exception_only,print_exception text;...>`
   C <lo> <hi>                               character classes of the code points lo..hi-1:
       one letter per code point: bit0 = `\d`, bit1 = isspace, bit2 = splitlines separator
   G                                         the literals of the model (for the translator self-check)
@@ -32,9 +36,9 @@ def showFrame (form : Form) (f : Frame) : String :=
 
 def showParsed (form : Form) (pe : PE) : String :=
   let fr := if pe.frames.isEmpty then "-" else " ".intercalate (pe.frames.map (showFrame form))
-  let str := if form = .se && !pe.frames.isEmpty then "XKeyError" else hx (toString pe)
-  let sf := match pe.frames.getLast? with | none => "!" | some f => hx f.file
-  s!"ok n={pe.frames.length} {fr} | {hx pe.etype} {hx pe.msg} | {str} | {sf}"
+  -- to_string() of frames read from the SyntaxError form is outside the statement: `~` on both sides
+  let str := if form = .se && !pe.frames.isEmpty then "~" else hx (toString pe)
+  s!"ok n={pe.frames.length} {fr} | {hx pe.etype} {hx pe.msg} | {str}"
 
 def parseFrameTok (w : String) : Option (Frame × Option Str) :=
   match splitOnChar w ',' with
@@ -113,25 +117,54 @@ def parseEntryTok (w : String) : Option TbEntry :=
 def showDictFrame (f : Str × Nat × Str × Str) : String :=
   s!"{hx f.1},{f.2.1},{hx f.2.2.1},{hx f.2.2.2}"
 
+def parseClass (m q : String) : Option ExcType :=
+  match (if m = "!" then some none else (unhx m).map some), unhx q with
+  | some mo, some qu => some ⟨mo, qu⟩
+  | _, _ => none
+
+def parseClassTok (w : String) : Option ExcType :=
+  match splitOnChar w ':' with
+  | [m, q] => parseClass m q
+  | _ => none
+
+/-- `str()` of the exception: hex text, or `!` when `str()` raised -/
+def parseMsg (w : String) : Option Str :=
+  if w = "!" then some (someStr none) else (unhx w).map fun s => someStr (some s)
+
+def parseCaptureTok (w : String) : Option Capture :=
+  match splitOnChar w ':' with
+  | [m, q, ms] =>
+    match parseClass m q, parseMsg ms with
+    | some c, some ms => some (c, ms)
+    | _, _ => none
+  | _ => none
+
+def parsePriors (w : String) : Option (List Capture) :=
+  if w = "-" then some [] else allSome ((splitOnChar w ';').map parseCaptureTok)
+
+def showCapture (r : Str × Str × Str) : String := s!"{hx r.1},{hx r.2.1},{hx r.2.2}"
+
 def handleL (toks : List String) : String :=
   match toks with
-  | lim :: sys :: ty :: ms :: es =>
+  | lim :: sys :: cl :: ms :: pri :: es =>
     let limit? : Option (Option Nat) := if lim = "n" then some none else lim.toNat?.map some
     let sys? : Option (Option Int) := if sys = "n" then some none else sys.toInt?.map some
-    match limit?, sys?, unhx ty, unhx ms, allSome (es.map parseEntryTok) with
-    | some limit, some sys, some ty, some ms, some tb =>
+    match limit?, sys?, parseClassTok cl, parseMsg ms, parsePriors pri, allSome (es.map parseEntryTok) with
+    | some limit, some sys, some cl, some ms, some pri, some tb =>
+      let ty := typeStr cl
+      let y := if pri.isEmpty then "-" else ";".intercalate ((sessionB pri).map showCapture)
       let tbB := tb.map walkB
       let tbS := tb.map walkS
       let all := fromTraceback tbB (resolveLimit none sys)
       let lim := fromTraceback tbB (resolveLimit limit sys)
       let b := eiFormat all ty ms
       let t := tbInfoFormat lim
-      let s := stdFormat (stdExtract tbS (resolveLimit none sys)) ty ms
+      let s := stdFormat (stdExtract tbS (resolveLimit none sys)) (stdTypeStr cl) ms
       let p := printException all ty ms
       let q := printException lim ty ms
       let f := if all.isEmpty then "-" else ";".intercalate ((dictFrames all).map showDictFrame)
-      s!"B={hx b} T={hx t} S={hx s} P={hx p} Q={hx q} N={(stdExtract tbS (resolveLimit limit sys)).length} F={f}"
-    | _, _, _, _, _ => "bad-op"
+      s!"B={hx b} T={hx t} S={hx s} P={hx p} Q={hx q} N={(stdExtract tbS (resolveLimit limit sys)).length} F={f} Y={y}"
+    | _, _, _, _, _, _ => "bad-op"
   | _ => "bad-op"
 
 def classLetter (n : Nat) : Char :=
